@@ -2,3 +2,6 @@ package defn
 
 // MaxNDNPacketSize is the maximum allowed NDN packet size
 const MaxNDNPacketSize = 8800
+
+// MinMTU is the smallest MTU a face can be configured with
+const MinMTU = 64
